@@ -15,9 +15,15 @@
      P1   after `lasti_before = frame.f_lasti`   (checkpoint "snap:lasti"; the calls into
           _parse_exception_table are switch points)
      P1b  after `iframe_raw = frame_raw.f_frame.contents`, before the stacktop/owner reads
-          (the `id(...)` calls of the four header asserts)
-     P2   after the stacktop/owner reads, before the first `assert frame.f_lasti ==
-          lasti_before`  (the ctypes.addressof / from_address calls)
+          (used to be: the `id(...)` calls of the four header asserts; they were moved in front
+          of the capture by /repo commit 62506a3, finding F15 -- a frame that returned there left
+          the header reads with a dangling pointer: SIGSEGV.  The flag hdr_atomic of the
+          configuration, from SrcFacts, says that this switch point no longer exists)
+     --   stacktop read, owner read, `assert frame.f_lasti == lasti_before`: ONE micro-step
+          (no call in between since /repo commit 98ca0a6, finding F13; the flag chk_hdr of
+          the configuration says whether that assert is there, from SrcFacts)
+     P2   after that, before the second `assert frame.f_lasti == lasti_before`
+          (the ctypes.addressof / from_address calls)
      P3 i before the re-check that precedes the read of slot i  (checkpoint "snap:slot";
           back-edge of the `for i in range(stack_len)` loop)
      P4   before the final re-check
@@ -51,7 +57,14 @@ Record cfg := mkC {
   tbl       : list (nat * nat * nat);   (* exception table: start, end (inclusive), depth *)
   stacksize : nat;                      (* co_stacksize *)
   retries   : nat;                      (* range(10) *)
-  ret_lasti : nat                       (* f_lasti of the completed frame (its RETURN) *)
+  ret_lasti : nat;                      (* f_lasti of the completed frame (its RETURN) *)
+  chk_hdr   : bool;   (* SrcFacts.snapshot_header_check_adjacent: the stacktop/owner reads are
+                         followed by `assert frame.f_lasti == lasti_before` with no call between *)
+  chk_slot  : bool;   (* SrcFacts.snapshot_slot_check_adjacent: that assert immediately precedes
+                         every `stack_ptr[i]` read *)
+  hdr_atomic : bool   (* SrcFacts.snapshot_capture_to_check_no_call: no call (switch point) between
+                         the capture of the InterpreterFrame pointer and that first re-check, i.e.
+                         switch point P1b does not exist (since /repo commit 62506a3, finding F15) *)
 }.
 
 Definition done_state (c : cfg) : tstate := mkT (ret_lasti c) (Some 0) [].
@@ -90,24 +103,28 @@ Inductive hdr := HFail | HVals (tp : option nat) (fo : bool).
 Record rd := mkRd {
   r_idx : nat;         (* slot index read *)
   r_live : bool;       (* the pointer used was not dangling at that instant *)
-  r_vdepth : nat;      (* number of valid slots at that instant *)
+  r_slots : list obj;  (* the valid slots of the target at that instant *)
   r_now : nat;         (* f_lasti at that instant *)
-  r_before : nat       (* lasti_before of the attempt *)
+  r_before : nat;      (* lasti_before of the attempt *)
+  r_val : obj          (* what the read returned *)
 }.
 Record ghost := mkG {
   held : list obj;     (* details.stack *)
   incs : nat;          (* references taken  (one per py_object read) *)
   decs : nat;          (* references dropped (a list that is dropped releases len refs) *)
   reads : list rd;
-  nretry : nat
+  nretry : nat;
+  stale_hdr : nat      (* header reads (f_globals ... stacktop, owner) made through a dangling pointer *)
 }.
-Definition g0 : ghost := mkG [] 0 0 [] 0.
+Definition g0 : ghost := mkG [] 0 0 [] 0 0.
 Definition drop_held (g : ghost) : ghost :=
-  mkG [] (incs g) (decs g + length (held g)) (reads g) (nretry g).
-Definition push_read (g : ghost) (v : obj) (r : rd) : ghost :=
-  mkG (held g ++ [v]) (S (incs g)) (decs g) (reads g ++ [r]) (nretry g).
+  mkG [] (incs g) (decs g + length (held g)) (reads g) (nretry g) (stale_hdr g).
+Definition push_read (g : ghost) (r : rd) : ghost :=
+  mkG (held g ++ [r_val r]) (S (incs g)) (decs g) (reads g ++ [r]) (nretry g) (stale_hdr g).
 Definition bump_retry (g : ghost) : ghost :=
-  mkG (held g) (incs g) (decs g) (reads g) (S (nretry g)).
+  mkG (held g) (incs g) (decs g) (reads g) (S (nretry g)) (stale_hdr g).
+Definition note_hdr (stale : bool) (g : ghost) : ghost :=
+  mkG (held g) (incs g) (decs g) (reads g) (nretry g) (if stale then S (stale_hdr g) else stale_hdr g).
 
 Definition env_t := nat -> point -> move.     (* attempt number -> switch point -> move *)
 Definition garb_t := nat -> hdr.
@@ -127,11 +144,11 @@ Section Run.
     | [] => (true, w, g)
     | i :: r =>
         let w1 := apply c (env a (P3 i)) w in
-        if lasti (cur w1) =? L then
+        if negb (chk_slot c) || (lasti (cur w1) =? L) then
           let live := negb (is_stale ptr w1) in
-          let vd := length (slots (cur w1)) in
-          let v := if live && (i <? vd) then nth i (slots (cur w1)) STALE else STALE in
-          slot_loop a L ptr r w1 (push_read g v (mkRd i live vd (lasti (cur w1)) L))
+          let sl := slots (cur w1) in
+          let v := if live && (i <? length sl) then nth i sl STALE else STALE in
+          slot_loop a L ptr r w1 (push_read g (mkRd i live sl (lasti (cur w1)) L v))
         else (false, w1, g)
     end.
 
@@ -141,11 +158,13 @@ Section Run.
     let w1 := apply c (env a P1) w in
     let hdep := handler_depth (tbl c) L in
     let ptr := whr w1 in
-    let w2 := apply c (env a P1b) w1 in
+    let w2 := if hdr_atomic c then w1 else apply c (env a P1b) w1 in
     let h := if is_stale ptr w2 then garb a else HVals (top (cur w2)) (loc_fo (whr w2)) in
+    let g := note_hdr (is_stale ptr w2) g in
     match h with
     | HFail => (false, w2, g, L)
     | HVals tp fo =>
+        if chk_hdr c && negb (lasti (cur w2) =? L) then (false, w2, g, L) else
         match (match tp with
                | None => Some hdep
                | Some n => if n <=? stacksize c then Some n else None
